@@ -3156,10 +3156,11 @@ def emit(ast: Program) -> str:
         parts.append(LEN_HELPER_SNIPPET + "\n")
     if globals_:
         parts.append("\n".join(globals_) + "\n\n")
-    if function_sections:
-        parts.append("".join(function_sections))
+    # sensor helpers first: user functions may call them
     if ultrasonic_sections:
         parts.append("".join(ultrasonic_sections))
+    if function_sections:
+        parts.append("".join(function_sections))
 
     parts.append(SETUP_START)
     parts.append("\n".join(setup_lines) if setup_lines else "  // no setup actions")
